@@ -79,6 +79,87 @@ SCENARIOS = {
 }
 
 
+SCENARIOS['queue'] = dict(
+    dims=2, racks={'r1': ['s1', 's2'], 'r2': ['s3']}, pods={},
+    sprofiles=[_sp([2, 2]), _sp([3, 3])],
+    server_init={'s1': 1, 's2': 1, 's3': 2},
+    allocs={'t': _al(reserved=(1, 1)), 't/x': _al(rank=90, adj=10, reserved=(2, 1)),
+            't/y': _al(maxutil=1, reserved=(1, 1)), 'u': _al(maxutil=2, reserved=(1, 1), adj=20),
+            'u/v/w': _al(rank=80, reserved=(0, 0))},
+    aprofiles=[_ap([1, 1], prio=5, alloc='t/x'), _ap([1, 1], prio=1, alloc='t/x'),
+               _ap([1, 1], prio=0, alloc='t/x'), _ap([1, 1], prio=3, alloc='t/y'),
+               _ap([1, 1], prio=2, alloc='u'), _ap([2, 1], prio=7, alloc='t'),
+               _ap([1, 1], prio=0, alloc='u/v/w'), _ap([1, 2], prio=4, alloc='u/v/w')],
+    groups={}, apps=['a1', 'a2', 'a3', 'a4', 'a5', 'a6'])
+
+
+SCENARIOS['topology'] = dict(
+    dims=2, racks={'r1': ['s1', 's2'], 'r2': ['s3'], 'r3': ['s4']}, pods={'p1': ['r1', 'r2'], 'p2': ['r3']},
+    sprofiles=[_sp([2, 2]), _sp([2, 2], traits=['t1']), _sp([3, 3], label='pB', vu=5),
+               _sp([1, 1], traits=['t1', 't2'], vu=3)],
+    server_init={'s1': 1, 's2': 2, 's3': 3, 's4': 1},
+    allocs={'x': _al(), 'y': _al(traits=['t1']), 'z': _al(label='pB')},
+    aprofiles=[_ap([1, 1]), _ap([1, 1], traits=['t2']), _ap([1, 1], alloc='y'),
+               _ap([2, 2], traits=['t1']), _ap([1, 1], alloc='z', lease=2),
+               _ap([1, 1], limits={'rack': 1, 'pod': 2}), _ap([1, 1], group='g1', prio=3),
+               _ap([2, 1], alloc='z', lease=4)],
+    groups={'g1': 1}, apps=['a1', 'a2', 'a3', 'a4', 'a5', 'a6'])
+
+
+def probeify(hist, rng, scn):
+    """C02: turn `Cycle, Submit(a,p), Cycle` into `Cycle, Quiesce, Probe(a,p)` and
+    end every history with a probe of a not yet used instance name."""
+    out = []
+    i = 0
+    used = set()
+    while i < len(hist):
+        ev, args = hist[i]
+        if ev == 'Submit':
+            used.add(args[0])
+        if ev == 'RemoveApp':
+            used.discard(args[0])
+        if (ev == 'Submit' and out and out[-1][0] in ('Cycle', 'Probe')
+                and i + 1 < len(hist) and hist[i + 1][0] == 'Cycle'):
+            out.append(('Quiesce', []))
+            out.append(('Probe', list(args)))
+            i += 2
+            continue
+        out.append((ev, args))
+        i += 1
+    free = [a for a in scn['apps'] if a not in used]
+    if free:
+        out.append(('Quiesce', []))
+        out.append(('Probe', [free[0], rng.randrange(len(scn['aprofiles'])) + 1]))
+    return out
+
+
+def gen_queue_scn(rng, name):
+    """A random allocation tree (depth <= 3) with random reservations, ranks,
+    adjustments and caps, and instance profiles spread over it."""
+    paths = []
+    for top in rng.sample(['t', 'u', 'v'], rng.randrange(1, 4)):
+        paths.append(top)
+        for mid in rng.sample(['x', 'y'], rng.randrange(0, 3)):
+            paths.append(top + '/' + mid)
+            if rng.random() < 0.4:
+                paths.append(top + '/' + mid + '/w')
+    allocs = {}
+    for p in paths:
+        allocs[p] = _al(rank=rng.choice([80, 90, 100, 100]), adj=rng.choice([0, 0, 10, 30]),
+                        reserved=(rng.randrange(0, 4), rng.randrange(0, 4)),
+                        maxutil=rng.choice([None, None, 1, 2, 3]))
+    profiles = []
+    for _ in range(8):
+        profiles.append(_ap([rng.randrange(0, 3), rng.randrange(1, 3)], prio=rng.choice([0, 0, 1, 2, 5, 9]),
+                            alloc=rng.choice(paths), aff=rng.choice(['web', 'db'])))
+    scn = dict(dims=2, racks={'r1': ['s1', 's2'], 'r2': ['s3']}, pods={},
+               sprofiles=[_sp([rng.randrange(1, 5), rng.randrange(1, 5)]), _sp([3, 3])],
+               server_init={'s1': 1, 's2': 1, 's3': 2}, allocs=allocs, aprofiles=profiles,
+               groups={}, apps=['a%d' % i for i in range(1, 9)])
+    SCENARIOS[name] = scn
+    return scn
+
+
 def norm_scn(scn):
     """The header logged with every trace (no nulls, sets as arrays)."""
     sparent = {s: r for r, ss in scn['racks'].items() for s in ss}
